@@ -55,8 +55,9 @@ def partition_unit(res):
 
     ex.abstract["Manager"] = manager
     ident = z3.Lambda([z3.Int("ii")], z3.Int("ii"))
-    ins = Schema("insk", ["InstructionForm"], {"line_number": ("int",)})
+    ins = Schema("insk", ["InstructionForm"], {"line_number": ("int",), "mnemonic": ("optstr",)})
     ins.fn["line_number"] = lines
+    ins.fn["mnemonic"] = (z3.Function("has_mnemonic", I, z3.BoolSort()), z3.Function("mnemonic_id", I, I))  # labels, directives, comments: none
 
     def run():
         kernel = SymSeq(klen, lambda i: SRef(i, ins))  # element i is identified with its index
